@@ -78,6 +78,16 @@ func execEncode(in val.V) val.V {
 					}
 				}
 				scribble(doc)
+			case 12, 13:
+				// the ID / type arrives through Scan (database/sql), into the member's field as it is (set or not), from a
+				// value the driver reuses afterwards
+				if kind == 12 {
+					_ = m.ID.Scan(op.At(2).Str())
+				} else {
+					buf := append([]byte(nil), op.At(2).Bytes()...)
+					_ = m.Type.Scan(buf)
+					scribble(buf)
+				}
 			case 11:
 				// an attempt to write the member to a writer that fails somewhere: it must leave no trace, neither in the
 				// member nor in what is encoded next
@@ -213,7 +223,14 @@ func genEncodeOps(c *Ctx, ops []val.V, t int, withNul bool) []val.V {
 		case x < 95:
 			ops = append(ops, val.L(val.N(8), tv, val.S(rng.Pick(r, []string{"fresh", "x", "message", "id: 7", " lead"}))))
 			c.Count("op:unmarshal-into")
-		case x < 97:
+		case x < 96:
+			s := genPayload(r)
+			if !withNul {
+				s = string(bytes.ReplaceAll([]byte(s), []byte{0}, []byte("0")))
+			}
+			ops = append(ops, val.L(val.N(uint64(12+r.Intn(2))), tv, val.S(s)))
+			c.Count("op:id-or-type-through-scan")
+		case x < 98:
 			// WriteTo on a writer that fails at call k, accepting j bytes of it (or takes everything and then fails)
 			ncalls := r.Intn(12)
 			script := make([]val.V, ncalls+1)
